@@ -1,6 +1,8 @@
 import Cellml.C11.Groups5
 import Cellml.C11.Rejects
 import Cellml.C11.Rewrite
+import Cellml.C11.RewriteSem
+import Cellml.C11.ModelQ
 
 /-! # C11 — generated Python code computes exactly what the expression means
 
@@ -112,6 +114,52 @@ theorem extra_trig_acoth : extraTrig "acoth" = some ("ofRecip", "atanh") := by d
 theorem extra_trig_keys : Cellml.Gen.printerExtraTrig.map (·.1) =
     ["sec", "csc", "cot", "sech", "csch", "coth", "asec", "acsc", "acot", "asech", "acsch", "acoth"] := by decide +kernel
 
+/-! ## meaning
+
+  `ev S e` : what the SymPy expression means, `evD S d` : what CPython computes for the layout tree, both over an
+  arbitrary field `K` with uninterpreted functions, power, comparisons and token values `S : Sem K`. `Laws S` states
+  what is assumed of them (number tokens denote their numbers, `v**-y = 1/v**y`, `v**1 = v`, `math.sqrt(v) = v**(1/2)`,
+  `True`/`False` are 1/0, each name-table entry sends a SymPy class to the Python function of the same meaning). -/
+
+/-- **print_means** (numbers): the emitted code evaluates to the value of the expression, for every assignment of
+    the symbols and every interpretation of the functions — sums, products with their sign, numerator and denominator
+    handling, powers and their `1 / x`, `math.sqrt` forms, piecewise chains. -/
+theorem print_means {K : Type} [Field K] (S : Sem K) (hL : Laws S) (e : E) (hl : isList e = false)
+    (hw : wf .A e = true) (d : Doc) (h : printDoc e = some d) : (evD S d).num = (ev S e).num := by
+  unfold printDoc at h
+  split at h
+  next hst =>
+    simp only [Option.some.injEq] at h; subst h
+    exact T_elim S e (all_MT S hL e).1.1 hl .A hw (by simpa using hst)
+  · cases h
+
+/-- **print_means** (truth values): relations, `and`/`or` chains, relations between relations -/
+theorem print_means_bool {K : Type} [Field K] (S : Sem K) (hL : Laws S) (e : E) (hl : isList e = false)
+    (hw : wf .B e = true) (d : Doc) (h : printDoc e = some d) :
+    (evD S d).bool = (ev S e).bool ∧ (evD S d).num = (ev S e).num := by
+  unfold printDoc at h
+  split at h
+  next hst =>
+    simp only [Option.some.injEq] at h; subst h
+    have := T_elim S e (all_MT S hL e).1.1 hl .B hw (by simpa using hst)
+    exact ⟨this.2, this.1⟩
+  · cases h
+
+/-- **extra_trig_means**: rewriting sec, csc, cot, sech, csch, coth, asec, acsc, acot, asech, acsch, acoth with the
+    generated table preserves the meaning, given their definitions (sec = 1/cos, …, asec(v) = acos(1/v), …) -/
+theorem extra_trig_means {K : Type} [Field K] (S : Sem K) (hL : Laws S) (hT : TrigDefs S) (e e' : E)
+    (h : rewriteTrig e = some e') : (ev S e').num = (ev S e).num ∧ (ev S e').bool = (ev S e).bool :=
+  ⟨(rewriteTrig_sem S hL hT e e' h).1, (rewriteTrig_sem S hL hT e e' h).2.1⟩
+
+/-- **doprint_means**: rewriting followed by printing -/
+theorem doprint_means {K : Type} [Field K] (S : Sem K) (hL : Laws S) (hT : TrigDefs S) (e e' : E)
+    (hr : rewriteTrig e = some e') (hl : isList e' = false) (hw : wf .A e' = true) (d : Doc)
+    (h : printDoc e' = some d) : (evD S d).num = (ev S e).num :=
+  (print_means S hL e' hl hw d h).trans (extra_trig_means S hL hT e e' hr).1
+
+/-- the laws are satisfiable: a model over ℚ -/
+theorem laws_satisfiable : ∃ S : Sem ℚ, Laws S := ⟨SQ, lawsQ⟩
+
 /-! ## non-vacuity: concrete expressions of the domain, printed, and well grouped -/
 
 def x : E := .sym "x" true
@@ -137,6 +185,15 @@ example : wf .A sample = true ∧ isList sample = false := by decide +kernel
 example : printStr sample = some "x - (y + 1 / math.sqrt(x**y))" := by decide +kernel
 example : (printDoc sample).map PyOK = some true := by decide +kernel
 example : bad false (.add (lst [x, .fn "gamma" (lst [y])])) = true := by decide +kernel
+/-- `print_means` applies to the sample with the ℚ model -/
+example : ∀ d, printDoc sample = some d → (evD SQ d).num = (ev SQ sample).num :=
+  fun d h => print_means SQ lawsQ sample (by decide +kernel) (by decide +kernel) d h
+example : rewriteTrig (.fn "asec" (lst [x])) = some (.fn "acos" (lst [.pow x (.int (-1))])) := by decide +kernel
+example : rewriteTrig (.mul (lst [y, .fn "sec" (lst [x])])) =
+    some (.mul (lst [y, .pow (.fn "cos" (lst [x])) (.int (-1))])) := by decide +kernel
+def cond : E := .and (lst [.rel .lt x y, .or (lst [.rel .eq x z, .rel .ge y (.int 2)])])
+example : wf .B cond = true := by decide +kernel
+example : printStr cond = some "x < y and (x == z or y >= 2)" := by decide +kernel
 
 /-! ## why the three `fix:` commits were needed: the bracketing rules as they were -/
 
